@@ -498,7 +498,7 @@ def analyse_cases(cases, per_module=25):
 
 
 def correspondence(rep, proof, tier, rng, found_input):
-    n = 100 if tier == "quick" else 1200
+    n = 100 if tier == "quick" else 700
     model_ok = proof is not None and not any("build failed" in b for b in proof.broken)
     cov = {"programs": 0, "evaluations": 0, "distinct_nontrivial": 0}
     if not model_ok:
